@@ -39,7 +39,9 @@ package output
 //@ func (*Prefixed).WrapWriter
 //@   ensures result.0 == result.1                                                                                      [C17]
 //@   ensures as(result.0, type(*prefixWriter)) == captured(result.2, "(*Prefixed).WrapWriter$1", "pw")                 [C17]
-//@   ensures as(result.0, type(*prefixWriter)).writer == stdOut && as(result.0, type(*prefixWriter)).prefixed == p     [C17]
+// every writer of the style points to THE Prefixed object (not to a copy of it): the mutex that serialises the lines of
+// all commands, and guards the colour table, is the one inside it
+//@   ensures as(result.0, type(*prefixWriter)).writer == stdOut && as(result.0, type(*prefixWriter)).prefixed == p     [C17,C18]
 //@ func (*Prefixed).WrapWriter$1
 //@   site (*prefixWriter).close#0 requires arg0 == pw                                                                  [C17]
 // Prefixed: every piece of one output line is written while holding the mutex shared by all commands.
